@@ -635,6 +635,13 @@ func scenXfer(r *Run) {
 			m.PausePM, m.StallAt = 0, 0
 		}
 		o.Clean18 = true
+		if t.Chance("cfg-clk", 300) {
+			// the 32-bit millisecond clock wraps (or crosses 2^31) during the transfer:
+			// "exactly once" holds there too (a stream of its own: older tapes keep
+			// their meaning)
+			o.World.ClockOffset = time.Duration(nearBoundary(t, "cfg-clk", 200+t.Skewed("cfg-clk", 0, 20000))) * time.Millisecond
+			r.S.Stats.Probe("clean-path-across-clock-wrap")
+		}
 	}
 	if r.Spec.Stratum == "heal" {
 		const cs = "cfg"
